@@ -159,7 +159,7 @@ def run(chk):
         f.variance_thresholds = np.array(thr)
         f.variances = np.array(mach.variances)
         return f
-    for j in range(12 if chk.tier == "quick" else 400):
+    for j in range(14 if chk.tier == "quick" else 420):
         C, D = r.choice([1, 2, 3]), r.choice([1, 2, 3])
         w, mu, var, s = gen.gen_gmm(r, C, D, "unit")
         m = make_gmm(w, mu, var, thr=1e-3 * float(s.min()) ** 2)
@@ -167,7 +167,7 @@ def run(chk):
         g = gen.nprng(r)
         ctxh = {"w": hexlist(w), "mu": hexlist(mu), "var": hexlist(var), "shape": [C, D], "X": hexlist(X)}
         _ = m.log_likelihood(X), m.acc_stats(X)               # whatever is cached is cached now
-        kind = ["load-other", "variances*=", "variances-row-edit", "means+=", "floors-raised-then-var*="][j % 5]
+        kind = ["load-other", "variances*=", "variances-row-edit", "means+=", "floors-raised-then-var*=", "other-component-count", "update-threshold-changed"][j % 7]
         if kind == "load-other":
             w2, mu2, var2, s2 = gen.gen_gmm(r, C, D, "unit")
             other = make_gmm(w2, mu2 + 0.5 * s2, var2 * g.uniform(0.3, 3.0, size=(C, D)), thr=1e-3 * float(s2.min()) ** 2)
@@ -186,6 +186,24 @@ def run(chk):
         elif kind == "means+=":
             m.means += 0.7 * s
             want = None
+        elif kind == "other-component-count":
+            # the public setters accept parameters for another number of components than the constructor was told
+            C2 = C + 1
+            w2, mu2, var2, s2 = gen.gen_gmm(r, C2, D, "unit")
+            m.weights, m.means = w2, mu2
+            m.variance_thresholds = 1e-3 * float(s2.min()) ** 2
+            m.variances = var2
+            want = None
+        elif kind == "update-threshold-changed":
+            # a machine without explicit floors whose mean_var_update_threshold is changed after construction
+            m = GMMMachine(n_gaussians=C, weights=np.array(w))
+            m.means, m.variances = np.array(mu), np.array(var)
+            _ = m.log_likelihood(X)
+            if j % 2:
+                m.set_params(mean_var_update_threshold=float(np.max(var)) * 2.0)
+            else:
+                m.mean_var_update_threshold = float(np.max(var)) * 2.0
+            want = None
         else:
             m.variance_thresholds = float(np.median(np.asarray(m.variances)))
             m.variances *= 0.5
@@ -194,6 +212,8 @@ def run(chk):
         thr_now = np.asarray(m.variance_thresholds)
         f = fresh_of(m, thr_now) if want is None else fresh_of(want, np.asarray(want.variance_thresholds))
         okp = (np.allclose(np.asarray(m.log_likelihood(X)), np.asarray(f.log_likelihood(X)), rtol=1e-12, atol=1e-12)
+               and np.asarray(m.acc_stats(X).sum_pxx).shape == np.asarray(f.acc_stats(X).sum_pxx).shape
+               and np.asarray(m.acc_stats(X).sum_px).shape == np.asarray(f.acc_stats(X).sum_px).shape
                and np.allclose(np.asarray(m.acc_stats(X).sum_pxx), np.asarray(f.acc_stats(X).sum_pxx), rtol=1e-10, atol=1e-12))
         if not okp:
             chk.fail("after the history [observe; %s; observe] the machine scores differently from a fresh machine with the same visible parameters" % kind,
